@@ -65,6 +65,9 @@ func TestMain(m *testing.M) {
 // replayTrace re-executes a concrete trace without rapid. It returns the
 // violation (or nil).
 func replayTrace(tr *Trace) error {
+	if _, _, _, ok := scaleParams(tr); ok {
+		return replayScale(tr)
+	}
 	spec := specByID(tr.Property)
 	if spec == nil {
 		return fmt.Errorf("no history spec for property %q", tr.Property)
